@@ -14,7 +14,11 @@ BASELINE = "cd /repo && /venv/bin/python -m pytest -ra -q -p no:cacheprovider --
 def main():
     props = [json.loads(l)["id"] for l in open(os.path.join(VERIF, "properties.jsonl"))]
     checks, na = [], []
+    ready = set(open(os.path.join(HERE, "READY")).read().split())
     for p in props:
+        if p not in ready:
+            na.append({"property_id": p, "reason": "check under construction (design in DESIGN.md §7); not claimed until it passes on the unchanged tree with several seeds and its mutant acceptance"})
+            continue
         path = os.path.join(HERE, "props", p + ".py")
         lean = os.path.join(VERIF, "lean", "Props", p + ".lean")
         if not (os.path.exists(path) and os.path.exists(lean)):
